@@ -260,3 +260,180 @@ package checkers
 //@   call WarnFixable requires @fix-range-is-the-comment payload(arg1) == comment && arg2.From == commentPos(comment) && arg2.To == commentEnd(comment) && arg2.From <= arg2.To
 //@   call WarnFixable requires @replacement-inserts-one-space hasPrefix(comment.Text, "//") ==> asString(arg2.Replacement) == "// " ++ substr(comment.Text, 2, len(comment.Text))
 //@   call WarnFixable requires @replacement-is-a-comment-that-no-longer-warns hasPrefix(comment.Text, "//") ==> (hasPrefix(asString(arg2.Replacement), "// ") && len(asString(arg2.Replacement)) == len(comment.Text) + 1)
+
+// ---- C20: API-specific diagnostics are about the real API, not a namesake
+
+// what the type checker says the called expression denotes: the name of a builtin function, or
+// "<import path>.<member>" of an imported package; "" for everything else
+//@ spec resolvedName(info *types.Info, x ast.Expr) string = ite(typeIs(x, "*ast.Ident"), ite(typeIs(infoObjectOf(info, cast(x, "*ast.Ident")), "*types.Builtin"), cast(x, "*ast.Ident").Name, ""), ite(typeIs(x, "*ast.SelectorExpr") && typeIs(cast(x, "*ast.SelectorExpr").X, "*ast.Ident") && typeIs(infoObjectOf(info, cast(cast(x, "*ast.SelectorExpr").X, "*ast.Ident")), "*types.PkgName"), pkgPath(pkgNameImported(cast(infoObjectOf(info, cast(cast(x, "*ast.SelectorExpr").X, "*ast.Ident")), "*types.PkgName"))) ++ "." ++ cast(x, "*ast.SelectorExpr").Sel.Name, ""))
+
+//@ func resolvedQualifiedName
+//@   prop C20
+//@   nosafety node shapes are the subject of the C01 sweep
+//@   astvalid
+//@   pure
+//@   requires ctx != nil && ctx.Context != nil && ctx.TypesInfo != nil
+//@   ensures @name-is-what-the-type-checker-resolves result == resolvedName(ctx.TypesInfo, x)
+
+//@ spec ctxOK(ctx *linter.CheckerContext) bool = ctx != nil && ctx.Context != nil && ctx.TypesInfo != nil
+//@ spec isCallOf(ctx *linter.CheckerContext, n ast.Node, name string) bool = typeIs(n, "*ast.CallExpr") && cast(n, "*ast.CallExpr") != nil && resolvedName(ctx.TypesInfo, cast(n, "*ast.CallExpr").Fun) == name
+
+// appendAssign: every function between the recognition of the callee and the diagnostic carries the fact
+//@ func (*appendAssignChecker).VisitStmt
+//@   prop C20
+//@   nosafety node shapes are the subject of the C01 sweep
+//@   astvalid
+//@   requires c != nil && ctxOK(c.ctx)
+
+//@ func (*appendAssignChecker).checkAppend
+//@   prop C20
+//@   nosafety node shapes are the subject of the C01 sweep
+//@   astvalid
+//@   requires c != nil && ctxOK(c.ctx) && call != nil
+//@   requires @subject-is-the-builtin-append resolvedName(c.ctx.TypesInfo, call.Fun) == "append"
+
+//@ func (*appendAssignChecker).matchSlices
+//@   prop C20
+//@   nosafety node shapes are the subject of the C01 sweep
+//@   astvalid
+//@   requires c != nil && ctxOK(c.ctx)
+//@   requires @subject-is-the-builtin-append isCallOf(c.ctx, cause, "append")
+
+//@ func (*appendAssignChecker).warn
+//@   prop C20
+//@   nosafety node shapes are the subject of the C01 sweep
+//@   astvalid
+//@   requires c != nil && ctxOK(c.ctx)
+//@   requires @subject-is-the-builtin-append isCallOf(c.ctx, cause, "append")
+//@   call Warn requires @diagnostic-is-about-the-builtin-append isCallOf(c.ctx, arg1, "append")
+
+// appendCombine: a chain is made of assignments whose right-hand side is a call of the builtin append
+//@ spec isAppendAssign(ctx *linter.CheckerContext, n ast.Node) bool = typeIs(n, "*ast.AssignStmt") && cast(n, "*ast.AssignStmt") != nil && len(cast(n, "*ast.AssignStmt").Rhs) == 1 && isCallOf(ctx, cast(n, "*ast.AssignStmt").Rhs[0], "append")
+
+//@ func (*appendCombineChecker).matchAppend
+//@   prop C20
+//@   nosafety node shapes are the subject of the C01 sweep
+//@   astvalid
+//@   pure
+//@   requires c != nil && ctxOK(c.ctx)
+//@   ensures @only-the-builtin-append-is-matched result != nil ==> (isAppendAssign(c.ctx, stmt) && result == cast(cast(stmt, "*ast.AssignStmt").Rhs[0], "*ast.CallExpr"))
+
+//@ func (*appendCombineChecker).VisitStmtList
+//@   prop C20
+//@   nosafety node shapes are the subject of the C01 sweep
+//@   astvalid
+//@   requires c != nil && ctxOK(c.ctx)
+//@   loop 1 invariant @chain-starts-at-an-append chain >= 1 ==> isAppendAssign(c.ctx, cause)
+
+//@ func (*appendCombineChecker).VisitStmtList$1
+//@   prop C20
+//@   nosafety node shapes are the subject of the C01 sweep
+//@   astvalid
+//@   requires c != nil && ctxOK(c.ctx)
+//@   requires @chain-starts-at-an-append chain >= 1 ==> isAppendAssign(c.ctx, cause)
+//@   ensures @chain-reset chain == 0
+
+//@ func (*appendCombineChecker).warn
+//@   prop C20
+//@   nosafety node shapes are the subject of the C01 sweep
+//@   astvalid
+//@   requires c != nil && ctxOK(c.ctx)
+//@   requires @subject-is-the-builtin-append isAppendAssign(c.ctx, cause)
+//@   call Warn requires @diagnostic-is-about-the-builtin-append isAppendAssign(c.ctx, arg1)
+
+// the name the type checker resolves the callee of call expression n to ("" when n is not a call)
+//@ spec calleeName(ctx *linter.CheckerContext, n ast.Node) string = ite(typeIs(n, "*ast.CallExpr") && cast(n, "*ast.CallExpr") != nil, resolvedName(ctx.TypesInfo, cast(n, "*ast.CallExpr").Fun), "")
+
+// badRegexp: the pattern analysis (whose warnings are all positioned at c.cause) is entered only for the first
+// argument of a call that resolves to regexp.Compile / regexp.MustCompile
+//@ func (*badRegexpChecker).VisitExpr
+//@   prop C20
+//@   nosafety node shapes are the subject of the C01 sweep
+//@   astvalid
+//@   requires c != nil && ctxOK(c.ctx)
+//@   call checkPattern requires @gate-subject-is-regexp-compile (calleeName(c.ctx, x) == "regexp.Compile" || calleeName(c.ctx, x) == "regexp.MustCompile") && c.cause == cast(x, "*ast.CallExpr").Args[0]
+
+//@ func (*regexpPatternChecker).VisitExpr
+//@   prop C20
+//@   nosafety node shapes are the subject of the C01 sweep
+//@   astvalid
+//@   requires c != nil && ctxOK(c.ctx)
+//@   call warnDomain requires @gate-subject-is-regexp-compile (calleeName(c.ctx, x) == "regexp.Compile" || calleeName(c.ctx, x) == "regexp.CompilePOSIX" || calleeName(c.ctx, x) == "regexp.MustCompile" || calleeName(c.ctx, x) == "regexp.MustCompilePosix") && arg1 == cast(x, "*ast.CallExpr").Args[0]
+
+//@ func (*regexpSimplifyChecker).VisitExpr
+//@   prop C20
+//@   nosafety node shapes are the subject of the C01 sweep
+//@   astvalid
+//@   requires c != nil && ctxOK(c.ctx)
+//@   call (*regexpSimplifyChecker).warn requires @gate-subject-is-regexp-compile (calleeName(c.ctx, x) == "regexp.Compile" || calleeName(c.ctx, x) == "regexp.MustCompile") && arg1 == cast(x, "*ast.CallExpr").Args[0]
+
+//@ func (*sortSliceChecker).VisitExpr
+//@   prop C20
+//@   nosafety node shapes are the subject of the C01 sweep
+//@   astvalid
+//@   requires c != nil && ctxOK(c.ctx)
+//@   call warnSlice requires @gate-subject-is-sort-slice calleeName(c.ctx, expr) == "sort.Slice" || calleeName(c.ctx, expr) == "sort.SliceStable"
+//@   call warnIndex requires @gate-subject-is-sort-slice calleeName(c.ctx, expr) == "sort.Slice" || calleeName(c.ctx, expr) == "sort.SliceStable"
+
+//@ func (*filepathJoinChecker).VisitExpr
+//@   prop C20
+//@   nosafety node shapes are the subject of the C01 sweep
+//@   astvalid
+//@   requires c != nil && ctxOK(c.ctx)
+//@   call warnSeparator requires @gate-subject-is-filepath-join calleeName(c.ctx, expr) == "path/filepath.Join"
+
+//@ func (*newDerefChecker).VisitExpr
+//@   prop C20
+//@   nosafety node shapes are the subject of the C01 sweep
+//@   astvalid
+//@   requires c != nil && ctxOK(c.ctx)
+//@   call (*newDerefChecker).warn requires @gate-subject-is-the-builtin-new typeIs(expr, "*ast.StarExpr") && calleeName(c.ctx, cast(expr, "*ast.StarExpr").X) == "new"
+
+//@ func (*flagNameChecker).VisitExpr
+//@   prop C20
+//@   nosafety node shapes are the subject of the C01 sweep
+//@   astvalid
+//@   requires c != nil && ctxOK(c.ctx)
+//@   call checkFlagName requires @gate-subject-is-a-function-of-package-flag hasPrefix(calleeName(c.ctx, expr), "flag.") && arg1 == cast(expr, "*ast.CallExpr")
+
+// exitAfterDefer: the reported call resolves to one of the exiting functions
+//@ spec exits(name string) bool = name == "log.Fatal" || name == "log.Fatalf" || name == "log.Fatalln" || name == "os.Exit"
+
+//@ func (*exitAfterDeferChecker).warn
+//@   prop C20
+//@   nosafety node shapes are the subject of the C01 sweep
+//@   astvalid
+//@   requires c != nil && ctxOK(c.ctx) && cause != nil
+//@   requires @subject-is-an-exiting-function exits(resolvedName(c.ctx.TypesInfo, cause.Fun))
+//@   call Warn requires @diagnostic-is-about-an-exiting-function typeIs(arg1, "*ast.CallExpr") && exits(calleeName(c.ctx, arg1))
+
+//@ func (*exitAfterDeferChecker).VisitFuncDecl$2
+//@   prop C20
+//@   nosafety node shapes are the subject of the C01 sweep
+//@   astvalid
+//@   requires c != nil && ctxOK(c.ctx)
+
+// rangeAppendAll: the reported identifier is the spread argument of a call of the builtin append
+//@ spec spreadArgOfAppend(ctx *linter.CheckerContext, id *ast.Ident) bool = exists n *ast.CallExpr :: n != nil && tnode(n) && resolvedName(ctx.TypesInfo, n.Fun) == "append" && len(n.Args) == 2 && typeIs(n.Args[1], "*ast.Ident") && cast(n.Args[1], "*ast.Ident") == id
+
+//@ func (*rangeAppendAllChecker).getValidAppendFrom
+//@   prop C20
+//@   nosafety node shapes are the subject of the C01 sweep
+//@   astvalid
+//@   pure
+//@   requires c != nil && ctxOK(c.ctx)
+//@   ensures @only-the-builtin-append-is-matched result != nil ==> spreadArgOfAppend(c.ctx, result)
+
+//@ func (*rangeAppendAllChecker).VisitStmt$1
+//@   prop C20
+//@   nosafety node shapes are the subject of the C01 sweep
+//@   astvalid
+//@   requires c != nil && ctxOK(c.ctx)
+
+//@ func (*rangeAppendAllChecker).warn
+//@   prop C20
+//@   nosafety node shapes are the subject of the C01 sweep
+//@   astvalid
+//@   requires c != nil && ctxOK(c.ctx)
+//@   requires @subject-is-the-builtin-append spreadArgOfAppend(c.ctx, appendFrom)
+//@   call Warn requires @diagnostic-is-about-the-builtin-append typeIs(arg1, "*ast.Ident") && spreadArgOfAppend(c.ctx, cast(arg1, "*ast.Ident"))
